@@ -721,3 +721,29 @@ corollary("C06.rectangular_rows_sum_to_one", props=["C06"],
           ensures=["forall(0, N, lambda i: sumto(P, lambda p: MM[i, p]) == 1)",
                    "forall(0, N, lambda i: forall(0, P, lambda p: MM[i, p] >= 0))"],
           sentence="for rectangular pixelizations every row of the mapping matrix is non-negative and sums to one")
+
+
+# ----------------------------------------------------------------------------------------------- symmetry in pixel-index form
+# every flat index p < H*W is the index of exactly one cell (c06_rowof(p), c06_colof(p)): the cell-coordinate statements above
+# therefore cover every source pixel, and symmetry can be stated over pixel indices (what the regularization schemes consume)
+_CELL = ("0 <= c06_rowof(H, W, p) and c06_rowof(H, W, p) < {n} and 0 <= c06_colof(H, W, p) and c06_colof(H, W, p) < W"
+         " and c06_flat(H, W, c06_rowof(H, W, p), c06_colof(H, W, p)) == p")
+spec_fn("c06_rowof", params=[("H", "$int"), ("W", "$int"), ("p", "int")], ret="int",
+        axioms=["forall(0, H, lambda r: forall(0, W, lambda c: c06_rowof(H, W, " + _FL("r", "c") + ") == r, pat=" + _FL("r", "c") + "))"],
+        py=lambda H, W, p: int(p // W) if W > 0 else 0, doc="row of the cell with flat index p")
+spec_fn("c06_colof", params=[("H", "$int"), ("W", "$int"), ("p", "int")], ret="int",
+        axioms=["forall(0, H, lambda r: forall(0, W, lambda c: c06_colof(H, W, " + _FL("r", "c") + ") == c, pat=" + _FL("r", "c") + "))"],
+        lemmas=[dict(name="surj", induct="n", lo=0, hi="H", hints=[_FL("n", "0"), _FL("n + 1", "0")], export=False,
+                     stmt="forall(0, " + _FL("n", "0") + ", lambda p: implies(W >= 1 and H >= 0, " + _CELL.format(n="n") + "), pat=c06_rowof(H, W, p))"),
+                dict(name="surj_all", noinduct=True, hints=[_FL("H", "0")],
+                     stmt="forall(0, H * W, lambda p: implies(W >= 1 and H >= 0, " + _CELL.format(n="H") + "), pat=c06_rowof(H, W, p))")],
+        py=lambda H, W, p: int(p % W) if W > 0 else 0, doc="column of the cell with flat index p")
+
+_LP = "(" + " or ".join("R[0][{a}, %d] == {b}" % k for k in range(4)) + ")"
+_ISCELL = lambda p: "0 <= c06_rowof(H, W, {p}) and c06_rowof(H, W, {p}) < H and 0 <= c06_colof(H, W, {p}) and c06_colof(H, W, {p}) < W".format(p=p)
+corollary("C06.rect_neighbors_symmetric", props=["C06", "C07"],
+          vars={"shape_native": "(int,int)"}, let={"H": "shape_native[0]", "W": "shape_native[1]"}, requires=["H >= 3", "W >= 3"],
+          calls=[("R", ME + "rectangular_neighbors_from", {"shape_native": "shape_native"})],
+          ensures=["forall(0, H * W, lambda p: forall(0, H * W, lambda q: " + _ISCELL("p") + " and " + _ISCELL("q")
+                   + " and iff(" + _LP.format(a="p", b="q") + ", " + _LP.format(a="q", b="p") + ")))"],
+          sentence="source-pixel neighbour lists are symmetric: q is in neighbors[p] iff p is in neighbors[q], for all pixel indices")
